@@ -52,7 +52,13 @@ class RScripted(TracerMixin, scripted.ScriptedBase, fsic.BaseModel):
     TRACE_NAME = 'history'
 
 
-CLASSES = {'T': TScripted, 'AT': ATScripted, 'TA': TAScripted, 'R': RScripted}
+# a class-level default list of traced variables: used for trace=True, never instead of a list given in the call
+class VScripted(TracerMixin, scripted.ScriptedBase, fsic.BaseModel):
+    TRACE_VARIABLES = ['B', 'A']
+
+
+CLASSES = {'T': TScripted, 'AT': ATScripted, 'TA': TAScripted, 'R': RScripted, 'V': VScripted, 'Tc': TScripted}
+DTYPES = {'Tc': complex}  # a rarely used constructor argument: the model's series are complex (values stay real)
 ALIAS_TRACE_ARGS = [['alpha', 'B'], 'first', ['beta', 'ab', 'X'], 'alpha']
 
 
@@ -91,15 +97,16 @@ def blocks(tier, seed):
 
 
 def values_of(m, names, pos):
-    return [float(m[n][pos]) for n in names]
+    return [complex(m[n][pos]) for n in names]
 
 
 def same(a, b):
-    return canon(np.array(a, dtype=float)) == canon(np.array(b, dtype=float))
+    # compared as complex numbers: a model may be built with dtype=complex (the imaginary parts are zero throughout)
+    return canon(np.array(a, dtype=complex)) == canon(np.array(b, dtype=complex))
 
 
-def build(cls, opts, hist):
-    m = scripted.make_scripted(list(range(3)), {1: [(o, 0) for o in hist]}, opts['preHook'] == 'exc', opts['postHook'] == 'exc', cls=cls, hooks_write=True)
+def build(cls, opts, hist, **init):
+    m = scripted.make_scripted(list(range(3)), {1: [(o, 0) for o in hist]}, opts['preHook'] == 'exc', opts['postHook'] == 'exc', cls=cls, hooks_write=True, **init)
     m.A = [1.0, 2.0, 3.0]
     m.B = [-1.0, -2.0, -3.0]
     m.X = [7.0, 8.0, 9.0]
@@ -152,7 +159,8 @@ def run_case(case):
     kw = dict(min_iter=opts['minIter'], max_iter=opts['maxIter'], tol=scripted.TOL, failures=opts['failures'],
               errors=opts['errors'], catch_first_error=opts['cfe'])
     TCls = CLASSES[case.get('cls', 'T')]
-    traced, untraced, plain = build(TCls, opts, hist), build(TCls, opts, hist), build(scripted.Scripted, opts, hist)
+    init_kw = {'dtype': DTYPES[case['cls']]} if case.get('cls') in DTYPES else {}
+    traced, untraced, plain = build(TCls, opts, hist, **init_kw), build(TCls, opts, hist, **init_kw), build(scripted.Scripted, opts, hist, **init_kw)
     init = values_of(traced, ['A', 'B', 'C', 'X', 'AB'], 1)
     out = []
     r1 = call(traced, entry, dict(kw, trace=arg))
@@ -166,7 +174,7 @@ def run_case(case):
         out.append(('untraced:trace-written', 'all traces empty', [list(tr.index) for tr in traces_of(untraced)], 'a trace was written with tracing off'))
     if case.get('off_variants'):
         for off in (None, False):
-            tw = build(TCls, opts, hist)
+            tw = build(TCls, opts, hist, **init_kw)
             roff = call(tw, entry, dict(kw, trace=off))
             if roff != rp or model_state(tw) != model_state(plain):
                 out.append(('differential:trace=%r' % off, {'plain': rp}, {'trace=%r' % off: roff}, 'an explicit trace=%r changed the solution' % off))
@@ -177,7 +185,7 @@ def run_case(case):
     tr = traces_of(traced)[1]
     labels = list(tr.index)
     allowed = expected_labels(exp, opts, hist_full)
-    names = names_for(arg)
+    names = list(TCls.TRACE_VARIABLES) if (arg is True and getattr(TCls, 'TRACE_VARIABLES', None)) else names_for(arg)
     if labels not in allowed:
         out.append(('labels:first-solve', allowed, labels, 'trace label sequence differs from start, before, 0, 1..k, end'))
     elif labels:
@@ -255,7 +263,7 @@ def run_traces(block, tier, acc):
                     acc.violation(key + ':' + entry, case, exp, obs, what)
         # the other tracer classes: aliases in trace=..., a renamed trace attribute
         extra = [('AT', ALIAS_TRACE_ARGS[0], 'solve_t'), ('AT', 'first', 'solve'), ('TA', ALIAS_TRACE_ARGS[2], 'solve_t'), ('TA', 'alpha', 'solve_period'),
-                 ('R', True, 'solve_t'), ('R', 'AB', 'solve')]
+                 ('R', True, 'solve_t'), ('R', 'AB', 'solve'), ('V', True, 'solve_t'), ('V', ['A', 'X'], 'solve'), ('V', 'AB', 'solve_period'), ('Tc', True, 'solve_t'), ('Tc', ['A', 'B'], 'solve')]
         if tier != 'quick':
             extra += [(c, a, e) for c in ('AT', 'TA') for a in ALIAS_TRACE_ARGS + [True] for e in ('solve_t', 'solve')] + [('R', ['A', 'B'], 'solve_period')]
         for cname, arg, entry in extra:
